@@ -102,6 +102,65 @@ func (s *allocState) exec(c *ctx, op string) string {
 		})
 		c.emit(op, res)
 		return res
+	case "acap6": // acap6 <base> <poolLen> <page>: a pool too large to trace step by step, filled to the brim
+		res := guard(func() string {
+			pool := net.IPNet{IP: net.IP(unhx(f[1])), Mask: net.CIDRMask(atoi(f[2]), 128)}
+			a, err := bitmap.NewBitmapAllocator(pool, atoi(f[3]))
+			if err != nil {
+				return "err"
+			}
+			seen := map[string]bool{}
+			bad := "-"
+			var mid net.IPNet
+			n := 0
+			var last error
+			for {
+				b, err := a.Allocate(net.IPNet{})
+				if err != nil {
+					last = err
+					break
+				}
+				ones, bits := b.Mask.Size()
+				k := b.IP.String()
+				switch {
+				case seen[k] && bad == "-":
+					bad = "dup:" + hx(b.IP)
+				case !pool.Contains(b.IP) && bad == "-":
+					bad = "outside:" + hx(b.IP)
+				case (ones != atoi(f[3]) || bits != 128) && bad == "-":
+					bad = fmt.Sprintf("length:%d/%d", ones, bits)
+				case !b.IP.Mask(b.Mask).Equal(b.IP) && bad == "-":
+					bad = "unaligned:" + hx(b.IP)
+				}
+				seen[k] = true
+				n++
+				if n == 70000 {
+					mid = b
+				}
+				if n > 1<<21 {
+					bad = "runaway"
+					break
+				}
+			}
+			refusal := "other"
+			if errors.Is(last, allocators.ErrNoAddrAvail) {
+				refusal = "noaddr"
+			}
+			refill := "-"
+			if mid.IP != nil {
+				refill = "bad"
+				if a.Free(mid) == nil {
+					if b, err := a.Allocate(net.IPNet{}); err == nil && b.IP.Equal(mid.IP) {
+						if _, err := a.Allocate(net.IPNet{}); errors.Is(err, allocators.ErrNoAddrAvail) {
+							refill = "ok"
+						}
+					}
+				}
+			}
+			return fmt.Sprintf("n=%d bad=%s refusal=%s refill=%s", n, bad, refusal, refill)
+		})
+		c.emit(op, res)
+		return res
 	case "arace": // arace <ip|-> <ones> <bits> <k> <rounds>: k callers at once with the same hint, again and again
 		if s.a == nil {
 			return ""
@@ -171,6 +230,15 @@ func genAlloc6(c *ctx) {
 	small := []pool6cfg{{56, 56}, {56, 57}, {56, 58}, {48, 52}, {60, 66}, {64, 70}, {120, 126}, {0, 6}, {1, 7}, {63, 65}, {64, 64}, {124, 128}, {58, 64}, {72, 79}}
 	big_ := []pool6cfg{{48, 64}, {112, 128}, {40, 52}, {64, 74}, {56, 64}}
 	bad := []pool6cfg{{64, 56}, {0, 64}, {10, 100}, {64, 128}}
+	// one pool with more blocks than any traced history can fill (C05: capacity is exact)
+	{
+		cfg := []pool6cfg{{47, 64}, {111, 128}, {40, 57}}[c.rng.Intn(3)]
+		base := c.pat128()
+		k := uint(128 - cfg.poolLen)
+		base.Rsh(base, k).Lsh(base, k)
+		base.SetBit(base, 125, 1) // not an IPv4-mapped address
+		(&allocState{}).exec(c, fmt.Sprintf("acap6 %s %d %d", hx(bigToIP(base)), cfg.poolLen, cfg.page))
+	}
 	for c.count < c.n {
 		var cfg pool6cfg
 		r := c.rng.Intn(20)
